@@ -422,7 +422,40 @@ func (g *gen) unit(i int) (string, UnitTruth) {
 		imps = append(imps, impLine{text: externals[xi].imp})
 		u.imports[externals[xi].imp] = true
 	}
+	var usage []string // statements / clauses of the extra method that uses the "used" extra imports
+	var usageAnn, usageThrows string
 	if g.o.ExtraImps {
+		nu := rapid.IntRange(0, 4).Draw(t, "nUsedExtraImports")
+		for k := 0; k < nu; k++ {
+			nm := g.names.Class(t)
+			switch rapid.IntRange(0, 6).Draw(t, "usedImportKind") {
+			case 0: // annotation
+				if usageAnn == "" {
+					usageAnn = nm
+					imps = append(imps, impLine{text: "org.lib.ann." + nm, verdict: "keep", why: "used as annotation"})
+				}
+			case 1: // throws
+				if usageThrows == "" {
+					usageThrows = nm
+					imps = append(imps, impLine{text: "org.lib.err." + nm, verdict: "keep", why: "used in throws"})
+				}
+			case 2: // catch type
+				usage = append(usage, "try { int q"+fmt.Sprint(k)+" = 0; } catch ("+nm+" ex"+fmt.Sprint(k)+") { }")
+				imps = append(imps, impLine{text: "org.lib.err." + nm, verdict: "keep", why: "used as catch type"})
+			case 3: // creation only
+				usage = append(usage, "Object o"+fmt.Sprint(k)+" = new "+nm+"();")
+				imps = append(imps, impLine{text: "org.lib." + nm, verdict: "keep", why: "used in a creation"})
+			case 4: // static receiver only
+				usage = append(usage, nm+".create("+fmt.Sprint(k)+");")
+				imps = append(imps, impLine{text: "org.lib." + nm, verdict: "keep", why: "used as static receiver"})
+			case 5: // generic argument / local type
+				usage = append(usage, "java.util.Collection<"+nm+"> g"+fmt.Sprint(k)+" = null;")
+				imps = append(imps, impLine{text: "org.lib." + nm, verdict: "keep", why: "used as generic type argument"})
+			default: // used static single import
+				usage = append(usage, "int s"+fmt.Sprint(k)+" = stat"+nm+"();")
+				imps = append(imps, impLine{text: "org.stat.Tool" + fmt.Sprint(k) + ".stat" + nm, static: true, verdict: "keep", why: "used static import"})
+			}
+		}
 		n := rapid.IntRange(0, 4).Draw(t, "nExtraImports")
 		for k := 0; k < n; k++ {
 			switch rapid.IntRange(0, 4).Draw(t, "extraImportKind") {
@@ -596,6 +629,45 @@ func (g *gen) unit(i int) (string, UnitTruth) {
 			u.ctor(m.idx, exts, typeParam)
 		} else {
 			u.method(s.methods[m.idx], exts, typeParam)
+		}
+	}
+	if s.kind == "Class" && (len(usage) > 0 || usageAnn != "" || usageThrows != "") {
+		w.S("\n")
+		if usageAnn != "" {
+			w.S(u.indent + "@" + usageAnn + "\n")
+		}
+		w.S(u.indent)
+		name := g.names.Method(t)
+		ft := FuncTruth{Name: name, ReturnType: "void", DeclLine: w.Line()}
+		w.S("void ")
+		ft.NameLine, ft.NameCol = w.Line(), w.Col()
+		w.S(name + "()")
+		if usageThrows != "" {
+			w.S(" throws " + usageThrows)
+		}
+		w.S(" {\n")
+		for _, st := range usage {
+			w.S(u.indent + u.indent + st + "\n")
+		}
+		w.S(u.indent + "}")
+		ft.EndLine = w.Line()
+		w.S("\n")
+		ft.Events = nil
+		truth.Funcs = append(truth.Funcs, ft)
+		truth.Features = append(truth.Features, "usage_method")
+	} else if s.kind == "Interface" {
+		// nothing in an interface uses the extra imports: they are unused after all
+		for k := range imps {
+			if imps[k].verdict == "keep" && strings.HasPrefix(imps[k].why, "used") {
+				for j := range truth.Imports {
+					if truth.Imports[j].Text == imps[k].text {
+						truth.Imports[j].Verdict, truth.Imports[j].Why = "delete", "unused in an interface"
+						if imps[k].static {
+							truth.Imports[j].Verdict = "free"
+						}
+					}
+				}
+			}
 		}
 	}
 	if s.kind == "Class" && len(chosen) > 0 && rapid.IntRange(0, 5).Draw(t, "trailingField") == 0 {
